@@ -66,6 +66,24 @@ CLAIMED = {
          "each constructor call: refused with UBXMessageError/UBXTypeError, or encoded exactly as UbxBuild!Build prescribes for the value it "
          "denotes with no other byte altered and the payload length the definition implies.",
          "3.5, 4/C15", "TLA+ build-walk spec + TLC trace validation of constructor calls with ill-fitting values"),
+ "C10": ("TLC explores the SocketWrapper machine (one action per recv and per call boundary) over every segmentation of a byte sequence x "
+         "bufsize x call scripts (conservation; results exactly as the byte sequence prescribes) and proves the reader delivers the same "
+         "items over an all-or-nothing source as over a file; scripted sockets (all segmentations of short sequences, random ones of long "
+         "streams, close/timeout) and real socketpair delivery from a sender thread are logged at the socket object and validated by TLC.",
+         "3.9, 4/C10", "TLC model checking of the socket-wrapper machine over all segmentations + TLC trace validation of scripted and real socket runs"),
+ "C13": ("TLC checks every interleaving of 3 workers (world untouched, results functional) and generates schedules by simulation; traces "
+         "recorded in fresh interpreters (setattr/delattr on messages of every definition; probes before/after seeded histories with "
+         "fd-level stdout/stderr capture and table digests; TLC schedules replayed by a source-line-level scheduler; free-running threads) "
+         "are validated by TLC against spec/UbxObject.tla.",
+         "3.10, 4/C13", "TLC interleaving model + TLC-generated schedules replayed deterministically + TLC trace validation"),
+ "C14": ("Exhaustive TLC evaluation of the configuration-database laws over all keys of the tree; every key x {name, ID} x boundary values "
+         "through config_set/config_del/config_poll, list lengths 0..64 and beyond, header sweeps and all lookups validated by TLC against "
+         "spec/UbxConfigDb.tla; CFG-VALSET/VALGET payloads with known and unknown keys parsed and compared with UbxWalk!CfgItems.",
+         "3.7, 4/C14", "TLC exhaustive table evaluation + TLC trace validation of config helper / lookup / parse calls"),
+ "C18": ("Every recorded helper call is validated by TLC against spec/UbxHelpers.tla: integer codecs on limb sequences (every value of "
+         "every 1- and 2-byte type plus out-of-range rings; boundary/random for wider types), opaque round trips, nomval, Fletcher-8, "
+         "time-of-week conversions, get_bits, protocol() on all 65,536 prefixes, att2idx/att2name, val2sphp.",
+         "3.11, 4/C18", "TLA+ codec/helper laws + TLC trace validation of exhaustive and sampled helper calls"),
 }
 checks = []
 for p in props:
